@@ -29,6 +29,181 @@ def run(ctx, res):
     deletion.byte0_examined(ctx, res, "C16.R3")
     tabs_expanded(ctx, res, "C16.R4")
     verbatim_lines(ctx, res, "C16.R5")
+    marker_tab_counts(ctx, res, "C16.R6")
+    line_map_rule(ctx, res, "C16.R7")
+
+
+def marker_tab_counts(ctx, res, rule):
+    """Columns are counted with tab = 4 *to the left of the marker*: the tabs that widen a marker's column are those between
+    the start of its line and the marker position - `count_tabspace(&content[line start..start])` for `_start`,
+    `count_tabspace(&content[start of the last line..end])` for the end marker - where the line start is the byte after the
+    previous line break (or 0)."""
+    P = ctx.lib
+    b = P.fn("list::build_pretty_string_item")
+    fn = fshort(b)
+    loc = T.loc(b["tree"])
+    ps = [p_["pat"] for p_ in b["params"]]
+    if len(ps) < 3 or any(p_.get("p") != "bind" for p_ in ps[:3]):
+        res.cannot(rule, fn, "params", "build_pretty_string_item(content, start, end, ..) expected", loc)
+        return
+    cid, sid, eid = ps[0]["id"], ps[1]["id"], ps[2]["id"]
+    lets = {s_["pat"]["id"]: s_ for s_ in T.nodes(b["tree"], "let") if s_["pat"].get("p") == "bind" and s_.get("init") is not None}
+
+    def line_start_of(lid, marker):
+        """Is local `lid` the start of the line that holds `marker` (param start, or end - 1)?"""
+        s_ = lets.get(lid)
+        if s_ is None or "Mut" in s_["pat"].get("mode", ""):
+            return False
+        calls = [n for n in T.nodes(s_["init"], "call") if T.short_path(T.callee(n) or "").endswith("find_prev_line_break_pos")]
+        if len(calls) != 1 or len(calls[0]["args"]) != 4:
+            return False
+        a2 = T.peel_ref(calls[0]["args"][2])
+        seed_ok = (T.local_of(a2) == sid) if marker == "start" else (a2.get("k") == "binary" and a2["op"] == "-" and T.local_of(a2["l"]) == eid and T.lit_value(a2["r"]) == 1)
+        r = T.render(s_["init"])
+        plus_one_or_zero = ("+ 1)" in r) and (".unwrap_or(0)" in r or "None => 0" in r or "map_or(0," in r or "else { 0 }" in r)
+        return seed_ok and plus_one_or_zero
+    found = {}
+    for n in T.nodes(b["tree"], "call"):
+        if not T.short_path(T.callee(n) or "").endswith("count_tabspace"):
+            continue
+        a0 = T.peel_ref(n["args"][0])
+        idx = T.peel(a0["idx"]) if a0.get("k") == "index" else {}
+        fe = {f["name"]: T.peel_ref(f["e"]) for f in idx.get("fields", [])} if idx.get("k") == "struct" else {}
+        which = None
+        if a0.get("k") == "index" and T.local_of(T.peel_ref(a0["base"])) == cid and set(fe) == {"start", "end"}:
+            hi = T.local_of(fe["end"])
+            lo = T.local_of(fe["start"])
+            if hi == sid and line_start_of(lo, "start"):
+                which = "start"
+            elif hi == eid and line_start_of(lo, "end"):
+                which = "end"
+        if which is None:
+            res.add(Finding(rule, fn, "tab-count:" + T.render(n)[:70], "tabs are counted over `%s`, not over the text between the start of the marker's line and the marker: "
+                            "the marker column is off by three per miscounted tab" % T.render(a0)[:80], loc=T.loc(n)))
+        else:
+            found[which] = found.get(which, 0) + 1
+            res.holds(rule, fn, "tab-count:" + which, T.render(a0)[:80])
+    for which in ("start", "end"):
+        if found.get(which, 0) != 1:
+            res.add(Finding(rule, fn, "tab-count-missing:" + which, "no (or more than one) tab count for the `%s` marker over its own line prefix" % which, loc=loc))
+
+
+def line_map_rule(ctx, res, rule):
+    """Line numbers are 1-based counts of '\\n': build_line_map records the byte position of every '\\n' and of nothing else."""
+    P = ctx.lib
+    b = P.fn("line_map::build_line_map")
+    fn = fshort(b)
+    loc = T.loc(b["tree"])
+    body = T.peel(b["tree"])
+    cn = b["params"][0]["pat"].get("name")
+    ok = None
+    why = ""
+    folds = [n for n in T.nodes(b["tree"], "mcall") if n["name"] == "fold" and T.render(n["recv"]) == "%s.char_indices()" % cn]
+    fors = [n for n in T.nodes(b["tree"], "for") if T.render(n["iter"]) == "%s.char_indices()" % cn]
+    filt = [n for n in T.nodes(b["tree"], "mcall") if n["name"] == "filter" and T.render(n["recv"]) == "%s.char_indices()" % cn]
+    mi = [n for n in T.nodes(b["tree"], "mcall") if n["name"] == "match_indices" and T.render(n["recv"]) == cn]
+    if len(folds) + len(fors) == 1:
+        # one step of the traversal on a symbolic character: an entry is pushed iff the character is '\n', and it is its position
+        if folds:
+            clo = T.peel(folds[0]["args"][1])
+            pats, stepbody = [clo["params"][0]["pat"], clo["params"][1]["pat"]], clo["body"]
+            accpat, itempat = pats
+        else:
+            accs = [s_["pat"] for s_ in T.nodes(b["tree"], "let") if s_["pat"].get("p") == "bind" and "Mut" in s_["pat"].get("mode", "") and "Vec<usize>" in (s_.get("pty") or "")]
+            if len(accs) != 1:
+                res.cannot(rule, fn, "line-map", "result list not found", loc)
+                return
+            accpat, itempat, stepbody = accs[0], fors[0]["pat"], fors[0]["body"]
+        vecs = []
+        I = A.Interp(P)
+
+        def step(J):
+            env = {}
+            vecs.append(A.VecV([]))
+            if not J.match_pat(accpat, vecs[-1], env) or not J.match_pat(itempat, A.Tuple([A.Sym("pos"), A.Sym("c")]), env):
+                raise A.Cannot("step parameters")
+            return J.ev(stepbody, env)
+        try:
+            outs = I.explore(step)
+        except A.Cannot as e:
+            res.cannot(rule, fn, "line-map", str(e), loc)
+            return
+        ok = len(outs) == 2 and len(vecs) == 2
+        for o, v in zip(outs, vecs):
+            d = dict(o["decisions"])
+            pushed = [A.show(x) for x in v.items]
+            if d == {"eq('\\n', c)": True} or d == {"eq(c, '\\n')": True}:
+                ok = ok and pushed == ["pos"]
+            elif d == {"eq('\\n', c)": False} or d == {"eq(c, '\\n')": False}:
+                ok = ok and pushed == []
+            else:
+                ok = False
+                why = "the decision to record a line break depends on %s" % list(d.keys())
+    elif len(filt) == 1:
+        pred = A.canon_pred(A.Interp(P), A.Closure(T.peel(filt[0]["args"][0]), {}))
+        chain = [p_ for n_, par in T.walk(b["tree"]) for p_ in par if n_ is filt[0]]
+        maps = [p_ for p_ in chain if p_.get("k") == "mcall" and p_["name"] == "map"]
+        first = False
+        if len(maps) == 1:
+            mc = T.peel(maps[0]["args"][0])
+            if mc.get("k") == "closure" and len(mc["params"]) == 1 and mc["params"][0]["pat"].get("p") == "tuple":
+                first = T.local_of(T.peel(mc["body"])) == mc["params"][0]["pat"]["pats"][0].get("id")
+        ok = pred in ("{eq($e.1, '\\n')}", "{eq('\\n', $e.1)}") and first
+        why = "filter predicate %s / projection" % pred
+    elif len(mi) == 1:
+        lit = T.lit_value(mi[0]["args"][0])
+        chain = [p_ for n_, par in T.walk(b["tree"]) for p_ in par if n_ is mi[0]]
+        maps = [p_ for p_ in chain if p_.get("k") == "mcall" and p_["name"] == "map"]
+        first = False
+        if len(maps) == 1:
+            mc = T.peel(maps[0]["args"][0])
+            if mc.get("k") == "closure" and len(mc["params"]) == 1 and mc["params"][0]["pat"].get("p") == "tuple":
+                first = T.local_of(T.peel(mc["body"])) == mc["params"][0]["pat"]["pats"][0].get("id")
+        ok = lit == "\n" and first
+        why = "match_indices(%r)" % (lit,)
+    if ok is None:
+        res.cannot(rule, fn, "line-map", "the traversal that records line breaks was not recognised", loc)
+    elif ok:
+        res.holds(rule, fn, "line-map", "one entry per '\\n': its byte position")
+    else:
+        res.add(Finding(rule, fn, "line-map", "build_line_map does not record exactly the byte positions of the '\\n' characters (%s): line numbers of listed regions shift" % (why or "other entries / other positions"), loc=loc))
+    # find_line: 1 + number of recorded line breaks at or before the position - decided by evaluating the function on small
+    # concrete line maps (all positions 0..7 against the maps [], [0], [2,5], [0,1], [3,3]) with concrete iterator models
+    fb = P.fn("line_map::find_line")
+
+    def conc(v):
+        if isinstance(v, A.VecV) and v.base is None:
+            return v
+        raise A.Cannot("iterator over an unknown list")
+    models = {
+        "core::slice::iter": lambda I_, a, n, env: conc(a[0]),
+        "std::iter::Iterator::position": lambda I_, a, n, env: next((A.Variant("Some", [A.Lit(i)]) for i, x in enumerate(conc(a[0]).items) if I_.truth(I_.apply(a[1], [x]))), A.Variant("None")),
+        "std::iter::Iterator::take_while": lambda I_, a, n, env: A.VecV(list(__import__("itertools").takewhile(lambda x: I_.truth(I_.apply(a[1], [x])), conc(a[0]).items))),
+        "std::iter::Iterator::filter": lambda I_, a, n, env: A.VecV([x for x in conc(a[0]).items if I_.truth(I_.apply(a[1], [x]))]),
+        "std::iter::Iterator::count": lambda I_, a, n, env: A.Lit(len(conc(a[0]).items)),
+        "std::iter::Iterator::rev": lambda I_, a, n, env: A.VecV(list(reversed(conc(a[0]).items))),
+        "core::slice::len": lambda I_, a, n, env: A.Lit(len(conc(a[0]).items)),
+        "std::vec::Vec::len": lambda I_, a, n, env: A.Lit(len(conc(a[0]).items)),
+        "core::slice::partition_point": lambda I_, a, n, env: A.Lit(len(list(__import__("itertools").takewhile(lambda x: I_.truth(I_.apply(a[1], [x])), conc(a[0]).items)))),
+    }
+    bad = None
+    rows = 0
+    try:
+        for lm in ([], [0], [2, 5], [0, 1], [3, 3]):
+            for needle in range(8):
+                outs = A.Interp(P, models=models).explore(lambda J: J.call_fn_body(fb, [A.VecV([A.Lit(x) for x in lm]), A.Lit(needle)]))
+                rows += 1
+                want = 1 + sum(1 for x in lm if x <= needle)
+                got = [o["value"].v if isinstance(o["value"], A.Lit) else A.show(o["value"]) for o in outs]
+                if got != [want] and bad is None:
+                    bad = (lm, needle, got, want)
+    except A.Cannot as e:
+        res.cannot(rule, fshort(fb), "find-line", str(e), T.loc(fb["tree"]))
+        return
+    if bad is None:
+        res.holds(rule, fshort(fb), "find-line", "1 + number of line breaks at or before the position (%d concrete rows)" % rows)
+    else:
+        res.add(Finding(rule, fshort(fb), "find-line", "find_line(%s, %d) evaluates to %s, the line number is %d (1 + line breaks at or before the position)" % bad, loc=T.loc(fb["tree"])))
 
 
 def tabs_expanded(ctx, res, rule):
